@@ -1,6 +1,7 @@
 (* Corr/C18.v — correspondence relation for C18: Model/ReadOnly.v vs the real objects.
-   A case is the model state read off a real scenario + planning-problem set (stored attribute names of the
-   trajectory states, cached occupancy sets, lanelet distance caches, spatial index, memoised light-cycle
+   A case is the model state read off a real scenario + planning-problem set (stored attribute names and values
+   (one number per state: digest of the values, arrays inside position regions included) of the trajectory states, the
+   other stored data of every obstacle (one number), the id sets of the intersections, cached occupancy sets, lanelet distance caches, spatial index, memoised light-cycle
    times, goal-lanelet tables with their container kind) and a list of steps; a step is the list of model
    operations a harness operation consists of (followed by an XML and a protobuf export), whether one of the
    operations the model predicts exceptions for raised, and the model state read off the real objects afterwards.
@@ -26,7 +27,8 @@ Definition subset (a b : list attr) : bool := forallb (fun x => existsb (attr_eq
 Definition same_attrs (a b : list attr) : bool := subset a b && subset b a && Nat.eqb (length a) (length b).
 
 Definition tstate_eqb (a b : tstate) : bool :=
-  Z.eqb (st_time a) (st_time b) && same_attrs (st_attrs a) (st_attrs b) && Bool.eqb (st_prop_orient a) (st_prop_orient b).
+  Z.eqb (st_time a) (st_time b) && same_attrs (st_attrs a) (st_attrs b) && Bool.eqb (st_prop_orient a) (st_prop_orient b)
+  && Z.eqb (st_val a) (st_val b).
 Definition pred_eqb (a b : pred) : bool :=
   match a, b with
   | PTraj s1 o1, PTraj s2 o2 => eql tstate_eqb s1 s2 && eqo eqlZ o1 o2
@@ -37,14 +39,21 @@ Definition pred_eqb (a b : pred) : bool :=
 Definition role_eqb (a b : role) : bool :=
   match a, b with Static, Static | Dynamic, Dynamic | Phantom, Phantom | Env, Env => true | _, _ => false end.
 Definition obst_eqb (a b : obst) : bool :=
-  role_eqb (o_role a) (o_role b) && Z.eqb (o_t0 a) (o_t0 b) && pred_eqb (o_pred a) (o_pred b).
+  role_eqb (o_role a) (o_role b) && Z.eqb (o_t0 a) (o_t0 b) && pred_eqb (o_pred a) (o_pred b)
+  && Z.eqb (o_val a) (o_val b).
 Definition lanelet_eqb (a b : lanelet) : bool :=
   Z.eqb (l_id a) (l_id b) && Bool.eqb (l_dist a) (l_dist b) && Bool.eqb (l_inner a) (l_inner b).
 Definition cycle_eqb (a b : cycle) : bool :=
   eqlZ (c_durs a) (c_durs b) && Z.eqb (c_off a) (c_off b) && eqo eqlZ (c_cum a) (c_cum b).
+Definition incoming_eqb (a b : incoming) : bool :=
+  Z.eqb (i_id a) (i_id b) && eqlZ (i_lanelets a) (i_lanelets b) && eqlZ (i_right a) (i_right b)
+  && eqlZ (i_straight a) (i_straight b) && eqlZ (i_left a) (i_left b).
+Definition inter_eqb (a b : inter) : bool :=
+  Z.eqb (x_id a) (x_id b) && eql incoming_eqb (x_incs a) (x_incs b) && eqlZ (x_cross a) (x_cross b).
 Definition net_eqb (a b : net) : bool :=
   eql lanelet_eqb (n_lanelets a) (n_lanelets b) && eqlZ (n_buffered a) (n_buffered b)
-  && eqo eqlZ (n_tree a) (n_tree b) && eql (eqo cycle_eqb) (n_lights a) (n_lights b).
+  && eqo eqlZ (n_tree a) (n_tree b) && eql (eqo cycle_eqb) (n_lights a) (n_lights b)
+  && eql inter_eqb (n_inters a) (n_inters b).
 Definition kv_eqb (a b : Z * list Z) : bool := Z.eqb (fst a) (fst b) && eqlZ (snd a) (snd b).
 Definition table_eqb (a b : table) : bool :=
   match a, b with
